@@ -44,6 +44,7 @@ SITE = {
     'KF-PARTPREFIX': 'wcmatch/glob.py:289; wcmatch/_wcparse.py:1645-1662',
     'KF-D16': 'wcmatch/glob.py:458,468',
     'KF-G3': 'wcmatch/_wcmatch.py:106-107',
+    'KF-G8': 'wcmatch/_wcmatch.py:95-130',
 }
 
 
@@ -279,6 +280,11 @@ def _match_vs_rglob(ck, sr, G, P, W, root, tree, ents, pat, fl) -> None:
                 # the implicit `**/` of match() plus a written globstar = two `**` groups: _fs_match lstat-s the
                 # pieces of the second group under the wrong directory and misses the symlinked directory (G3)
                 kid = 'KF-G3'
+            elif not m[1] and member and truth is True and _crosses_link(root, q) and K.sig_has_gstar_segment(W, P, pat, fl) and \
+                    K.outcome(lambda: cls(q).match(pat, flags=fl & ~P.REALPATH))[1] is True:
+                # the regex accepts q and the walker (also through the public `**/p`) yields it, but the decomposition the regex engine
+                # found first puts the symlinked directory inside a captured `**`: _fs_match looks at no other reading (G8)
+                kid = 'KF-G8'
             elif not m[1] and member and truth is False and K.sig_first_gstar(W, P, pat, fl):
                 kid = 'KF-RGLOBSTAR'        # rglob yields q although glob('**/'+p) does not: the unmerged second `**` acts as a name matcher
             elif m[1] and not member and K.sig_D6(W, P, pat, fl, q):
@@ -423,6 +429,7 @@ def _witnesses(ck: Check, sr, G, P, W) -> None:
         for f in ('d/.hid', 'd/x', 'f.txt', 'xyz', 'b', 'a\\b', 'a\\.\\b', 'x\\', 'a\n'):
             open(os.path.join(root, f), 'w').close()
         os.symlink('f.txt', os.path.join(root, 'lf'))
+        os.symlink('d', os.path.join(root, 'ld'))
         os.chdir(root)
         tree = K.describe(root)
 
@@ -452,6 +459,7 @@ def _witnesses(ck: Check, sr, G, P, W) -> None:
         mvr('KF-NEWLINE', '@(a|b)', P.EXTGLOB, 'a\n')
         mvr('KF-D16', '*', P.NODIR, 'x\\')
         mvr('KF-RGLOBSTAR', '**/*', P.GLOBSTAR, 'xyz')
+        mvr('KF-G8', '**', P.GLOBSTAR | P.GLOBSTARLONG | P.FOLLOW, 'ld/x')
         a = [str(x) for x in P.Path('.').rglob('**/*', flags=P.GLOBSTAR)]
         b = G.glob('**/*', flags=G.GLOBSTAR)
         seen('KF-RGLOBSTAR', sorted(a) != sorted(b), "Path('.').rglob('**/*') loses results glob('**/*') has",
@@ -472,7 +480,7 @@ def _witnesses(ck: Check, sr, G, P, W) -> None:
         seen('KF-NOTDIR', (not a and bool(b)) or c[0] == 'ok', 'Path.glob on a non-directory path short-circuits',
              {'api': 'Path.glob', 'path': 'f.txt', 'patterns': ['./', '/a']}, {'./': b, '/a': 'ValueError'},
              {'./': a, '/a': list(c)})
-        sr.note = 'the witnesses of the listed findings, replayed on the real code on a twelve-entry tree'
+        sr.note = 'the witnesses of the listed findings, replayed on the real code on a thirteen-entry tree'
         sr.distinct += 12
     finally:
         os.chdir(cwd0)
